@@ -337,6 +337,7 @@ class SplineGeometry(Geometry):
             return False
         if self.rational != other.rational:
             return False
+        tol = 10 ** (-self._precision)  # comparison tolerance
         try:
             for s, o in zip(self._control_points_size, other._control_points_size):
                 if s != o:
@@ -353,7 +354,7 @@ class SplineGeometry(Geometry):
                     return False
                 chk = []
                 for s, o in zip(sk, ok):
-                    tmp = True if abs(s - o) < self._precision else False
+                    tmp = True if abs(s - o) < tol else False
                     chk.append(tmp)
                 chk_kv.append(all(chk))
             if not all(chk_kv):
@@ -364,7 +365,7 @@ class SplineGeometry(Geometry):
                     return False
                 chk = []
                 for s, o in zip(sk, ok):
-                    tmp = True if abs(s - o) < self._precision else False
+                    tmp = True if abs(s - o) < tol else False
                     chk.append(tmp)
                 chk_ctrlpts.append(all(chk))
             if not all(chk_kv):
